@@ -23,7 +23,9 @@ sec = ["## 11. Behaviour-preserving refactorings (generated from benign/*/meta.j
        "or lost its translator tie because `repo2coq` does not recognise the new shape — then the proof obligation over the",
        "regenerated definitions is genuinely not re-established and the check reports `VIOLATION ... no-failing-input-found` as",
        "the interface requires; the translator plug-ins were widened so that the shapes below are recognised. Rows are the state",
-       "at the last `tools/refall.py` run.", "",
+       "at the last `tools/refall.py` run. History: at first 10 of the 38 round-1 refactorings and 6 + 4 of the 22 rename/move-heavy",
+       "round-2 ones raised an alarm (one of them, C03-3, a concrete false verdict through a silent reflect-by-name lookup); after the",
+       "corrections described in 2.9 all of them are quiet while every seeded change of section 8 is still caught.", "",
        "%d refactorings, %d leave every check they were run against green." % (len(rows), green), "",
        "| refactoring | checks run -> stays green | what it changes |", "|---|---|---|"]
 for name, m, first in rows:
